@@ -13,9 +13,11 @@
            boundary classes).  Avoid = TRUE keeps only calls for which the as-written model predicts no hazard
            (deep behaviours that must be crash-free on the real library); Avoid = FALSE lets hazards through and
            ends the behaviour at the first one.  CONSTRAINT Emit prints BEHAVIOUR lines (the calls as JSON).
-   "sweep" prints, for seven contexts (fresh / bank / bank+song / a music file rejected midway / the same + rewind / a looping song
-           after rewind / sounding notes under DMX), every function with one parameter at a time swept over its classes
-           (SWEEP lines = ready histories: hazard-free calls chained, hazardous calls on their own). *)
+   "sweep" prints, for the contexts of Ctx (fresh / bank / bank+song / a music file rejected midway / the same + rewind / a looping song
+           after rewind / locked setup / sounding notes under DMX / bursts of simultaneous drum hits on several chips ...), every
+           function with one parameter at a time swept over its classes
+           (SWEEP lines = ready histories: hazard-free calls chained, hazardous calls on their own), followed by the context's
+           suffix Sfx (calls that make the library USE the state the swept call left behind: a render and a tick). *)
 EXTENDS ApiSurface, Json
 CONSTANTS MaxDepth, EmitDepth, Mode, Avoid, FuelCap, Salt
 
@@ -56,6 +58,7 @@ Reduced == <<
   E("setLogarithmicVolumes", [v |-> 1]),
   E("rt_noteOn", [ch |-> 0, k |-> 64, v |-> 127]), E("rt_noteOn", [ch |-> 16, k |-> 64, v |-> 127]), E("rt_noteOn", [ch |-> 17, k |-> 64, v |-> 64]),
   E("rt_noteOff", [ch |-> 0, k |-> 64]), E("rt_noteOff", [ch |-> 16, k |-> 64]),
+  E("noteBurst", [ch |-> 9, k |-> 35, cnt |-> 13, v |-> 127]), E("setNumChips", [n |-> 1]),
   E("rt_noteAfterTouch", [ch |-> 16, k |-> 64, v |-> 64]), E("rt_channelAfterTouch", [ch |-> 16, v |-> 64]),
   Cc(0, 7, 255), Cc(0, 7, 128), Cc(0, 11, 255), Cc(0, 7, 127), Cc(0, 121, 0), Cc(0, 123, 0), Cc(16, 7, 0), Cc(255, 7, 64),
   E("rt_patchChange", [ch |-> 0, p |-> 255]), E("rt_patchChange", [ch |-> 0, p |-> 127]), E("rt_patchChange", [ch |-> 16, p |-> 0]),
@@ -66,6 +69,7 @@ Reduced == <<
   E("getBank", [id |-> <<0, 0, 0>>, flags |-> 1, then |-> "none", idx |-> 0, ver |-> 0, fl |-> 0]),
   E("getBank", [id |-> <<0, 128, 0>>, flags |-> 1, then |-> "none", idx |-> 0, ver |-> 0, fl |-> 0]),
   E("getBank", [id |-> <<0, 0, 0>>, flags |-> 0, then |-> "getIns", idx |-> 128, ver |-> 0, fl |-> 0]),
+  E("getBank", [id |-> <<0, 0, 0>>, flags |-> 1, then |-> "setIns", idx |-> 128, ver |-> 0, fl |-> 0]),
   E("generate", [n |-> 1024]), E("play", [n |-> -1]), E("reset", [nd |-> 0]), E("panic", [nd |-> 0]), E("rt_resetState", [nd |-> 0]),
   E("close", [nd |-> 0]), E("setDeviceIdentifier", [v |-> 16]), E("setChannelEnabled", [i |-> 16, v |-> 0]),
   E("setTrackOptions", [i |-> 1, opt |-> 1]), E("setNumChips", [n |-> 2]) @@ [nd |-> 1] >>
@@ -76,7 +80,7 @@ Preload == E("openBankData", [a |-> "b1"])
 Hot == << "rt_noteOn", "rt_noteOn", "rt_noteOn", "rt_noteOff", "rt_controllerChange", "rt_controllerChange", "rt_controllerChange",
           "rt_patchChange", "rt_systemExclusive", "generate", "generate", "play", "playFormat", "generateFormat", "tickEvents",
           "openBankData", "openData", "openData", "openFile", "setNumChips", "switchEmulator", "setVolumeRangeModel", "setChipType", "getBank",
-          "positionSeek", "positionRewind", "tickEvents", "play", "setLoopEnabled", "setTempo" >>
+          "positionSeek", "positionRewind", "tickEvents", "play", "setLoopEnabled", "setTempo", "noteBurst", "noteBurst", "setNumChips" >>
 FnW == Fns \o Hot \o Hot
 RateSeq == SetToSeq(RateC)
 \* (operators with a state argument: TLC evaluates constant-level definitions once, at start-up)
@@ -137,16 +141,43 @@ Ctx == [
   \* a looping song under an absurd tempo multiplier request (ignored since 8786f57)
   fastloop |-> << E("openBankData", [a |-> "b1"]), E("openData", [a |-> "s2"]), E("setLoopEnabled", [v |-> 1]), E("setTempo", [t |-> "huge"]) >>,
   note  |-> << E("openBankData", [a |-> "b1"]), E("rt_noteOn", [ch |-> 0, k |-> 64, v |-> 127]), E("rt_noteOn", [ch |-> 9, k |-> 64, v |-> 127]),
-               E("setVolumeRangeModel", [v |-> 3]) >> ]
+               E("setVolumeRangeModel", [v |-> 3]) >>,
+  \* bursts of simultaneous drum hits that fill the chip channels of several chips; the swept call follows at once (the notes are
+  \* inside their minimal life time, whatever releases them), then the suffix renders and ticks past that life time
+  drums |-> << E("openBankData", [a |-> "b1"]), E("setNumChips", [n |-> 4]), E("noteBurst", [ch |-> 9, k |-> 35, cnt |-> 22, v |-> 127]) >>,
+  \* ... the same on a channel in XG percussion mode (bank MSB 127), 3 chips, some keys released by hand before the swept call
+  \* (note-off and panic() leave a young drum note alive; CC120 / CC123 do not, they cut every note of the channel at once)
+  drumsx |-> << E("openBankData", [a |-> "b1"]), E("setNumChips", [n |-> 3]), Cc(0, 0, 127), E("noteBurst", [ch |-> 0, k |-> 30, cnt |-> 18, v |-> 100]),
+                E("rt_noteOff", [ch |-> 0, k |-> 47]), E("rt_noteOff", [ch |-> 0, k |-> 46]) >>,
+  \* (Mode = "sweepall", thorough tier) 8 chips filled up to the last channel while a looping song is loaded: the sequencer's
+  \* own ticking (opn2_play) is what meets the notes afterwards; and 100 chips / 128 hits
+  drums8s |-> << E("openBankData", [a |-> "b1"]), E("setNumChips", [n |-> 8]), E("openData", [a |-> "s2"]), E("setLoopEnabled", [v |-> 1]),
+                 E("noteBurst", [ch |-> 9, k |-> 27, cnt |-> 49, v |-> 127]), E("panic", [nd |-> 0]) >>,
+  drums100 |-> << E("openBankData", [a |-> "b1"]), E("setNumChips", [n |-> 100]), E("noteBurst", [ch |-> 9, k |-> 0, cnt |-> 128, v |-> 1]) >> ]
+\* calls appended to every history of a context (render calls are left out while the VGM dumper is selected)
+Sfx == [c \in DOMAIN Ctx |->
+         CASE c = "drums"  -> << E("generate", [n |-> 3072]), E("tickEvents", [s |-> "one", g |-> "small"]) >>
+           [] c = "drumsx" -> << E("tickEvents", [s |-> "one", g |-> "small"]), E("generate", [n |-> 1024]) >>
+           [] c = "drums8s" -> << E("play", [n |-> 4096]), E("tickEvents", [s |-> "small", g |-> "small"]), E("generate", [n |-> 1024]) >>
+           [] c = "drums100" -> << E("tickEvents", [s |-> "small", g |-> "tiny"]), E("tickEvents", [s |-> "small", g |-> "small"]),
+                                   E("tickEvents", [s |-> "small", g |-> "small"]), E("generate", [n |-> 1024]) >>
+           [] OTHER -> << >> ]
 RECURSIVE Run(_, _)
 Run(St, evs) == IF evs = << >> THEN St ELSE Run(Spend(St, Head(evs)), Tail(evs))
-CtxNames == << "fresh", "bank", "song", "rej", "rejrew", "looprew", "locked", "lockedn", "fastloop", "note" >>
+CtxNames == << "fresh", "bank", "song", "rej", "rejrew", "looprew", "locked", "lockedn", "fastloop", "note", "drums", "drumsx" >>
+            \o (IF Mode = "sweepall" THEN << "drums8s", "drums100" >> ELSE << >>)
+RECURSIVE SfxRun(_, _)
+SfxRun(St, evs) == IF evs = << >> THEN << >>
+                   ELSE LET ev == Head(evs) IN
+                        IF IsRender(ev) /\ St.alive /\ St.emu = VGM THEN SfxRun(St, Tail(evs))
+                        ELSE << Out(St, ev) >> \o SfxRun(Spend(St, ev), Tail(evs))
 ChainMax == 1          \* calls per sweep history after the context prefix (1: no interference between the swept calls)
 \* the work list of one context, computed once (TLC does not memoise): its state, its prefix, the calls still to place
 SwOf(i) == LET c == CtxNames[i]  st0 == Run(New(44100), Ctx[c]) IN
            [i |-> i, st0 |-> st0, h0 |-> << [e |-> "Init", rate |-> 44100] >> \o Ctx[c],
             evs |-> FlattenSeq([j \in DOMAIN Fns |-> SetToSeq(Sweep(st0, Fns[j]))])]
-Flush(h) == PrintT(<<"SWEEP", ToJson([ctx |-> CtxNames[sw.i], h |-> h])>>)
+\* h = the history, st = the model state after its last call
+Flush(st, h) == PrintT(<<"SWEEP", ToJson([ctx |-> CtxNames[sw.i], h |-> h \o SfxRun(st, Sfx[CtxNames[sw.i]])])>>)
 SweepInit == sw = SwOf(1) /\ S = sw.st0 /\ hist = sw.h0 /\ bad = {}
 \* one call per step: the hazard-free calls of ONE function extend the current chain (a new function starts a new chain from the
 \* context state, so that every function is exercised right after the context prefix); a call that is hazardous in the chain's
@@ -154,7 +185,7 @@ SweepInit == sw = SwOf(1) /\ S = sw.st0 /\ hist = sw.h0 /\ bad = {}
 SweepNext ==
   /\ bad' = bad
   /\ IF sw.evs = << >>
-     THEN /\ Len(hist) > Len(sw.h0) => Flush(hist)
+     THEN /\ Len(hist) > Len(sw.h0) => Flush(S, hist)
           /\ IF sw.i < Len(CtxNames) THEN sw' = SwOf(sw.i + 1) /\ S' = sw'.st0 /\ hist' = sw'.h0
              ELSE Len(hist) > Len(sw.h0) /\ hist' = sw.h0 /\ UNCHANGED <<S, sw>>
      ELSE LET ev == Head(sw.evs)
@@ -162,13 +193,13 @@ SweepNext ==
               st == IF newfn THEN sw.st0 ELSE S
               h == IF newfn THEN sw.h0 ELSE hist
           IN
-          /\ newfn => Flush(hist)
+          /\ newfn => Flush(S, hist)
           /\ sw' = [sw EXCEPT !.evs = Tail(@)]
           /\ IF Hazards(st, ev) = << >> /\ Enabled(st, ev, FuelCap) /\ ev.e \notin {"close", "reinit"}
              THEN LET h1 == Append(h, Out(st, ev)) IN
                   IF Len(h1) >= Len(sw.h0) + ChainMax \/ Len(sw.evs) = 1
-                  THEN Flush(h1) /\ S' = sw.st0 /\ hist' = sw.h0
+                  THEN Flush(Spend(st, ev), h1) /\ S' = sw.st0 /\ hist' = sw.h0
                   ELSE S' = Spend(st, ev) /\ hist' = h1
-             ELSE Flush(Append(sw.h0, Out(sw.st0, ev))) /\ S' = st /\ hist' = h
+             ELSE Flush(IF Hazards(sw.st0, ev) = << >> THEN Spend(sw.st0, ev) ELSE sw.st0, Append(sw.h0, Out(sw.st0, ev))) /\ S' = st /\ hist' = h
 SweepSpec == SweepInit /\ [][SweepNext]_vars
 =============================================================================
